@@ -553,3 +553,48 @@ def expm_apply(h, psi, tau):
     if np.iscomplex(tau):
         return sla.expm(h * tau.imag) @ psi
     return sla.expm(-1j * h * float(np.real(tau))) @ psi
+
+
+def mixed_edges(spec, qntot):
+    """edges (named by their child node) at which neither side is complete in EVERY label block:
+    some block has fewer subtree states than complement states and another block the opposite.
+    Projector splitting with complete bonds is exact unless such an edge exists."""
+    nn = len(spec["nodes"])
+    qs = spec["qn_size"]
+    children = {i: [] for i in range(nn)}
+    for i, nd in enumerate(spec["nodes"]):
+        if nd["parent"] >= 0:
+            children[nd["parent"]].append(i)
+
+    def subtree(i):
+        out = [i]
+        for c in children[i]:
+            out += subtree(c)
+        return out
+
+    def count(nodes):
+        cnt = {tuple([0] * qs): 1}
+        for i in nodes:
+            for ib in spec["nodes"][i]["sets"]:
+                new = {}
+                for k, v in cnt.items():
+                    for s in spec["basis"][ib]["sigmaqn"]:
+                        k2 = tuple(int(a) + int(b) for a, b in zip(k, s))
+                        new[k2] = new.get(k2, 0) + v
+                cnt = new
+        return cnt
+    res = []
+    qt = tuple(int(x) for x in np.asarray(qntot).ravel())
+    for i in range(1, nn):
+        sub = subtree(i)
+        rest = [j for j in range(nn) if j not in sub]
+        cs, cc = count(sub), count(rest)
+        less = more = False
+        for k, v in cs.items():
+            k2 = tuple(a - b for a, b in zip(qt, k))
+            if k2 in cc:
+                less |= v < cc[k2]
+                more |= v > cc[k2]
+        if less and more:
+            res.append(i)
+    return res
